@@ -90,6 +90,7 @@ func runLockmon(cfg *RunCfg, rep *Reporter, cov *Cov) {
 	runROConcurrent(cfg, rep, cov)
 	runROCloseVsQuery(cfg, rep, cov)
 	runCloseVsDelete(cfg, rep, cov)
+	runROOptionMix(cfg, rep, cov)
 }
 
 func runLockSeq(cfg *RunCfg, rep *Reporter, cov *Cov, code int, seq []lockAct) {
@@ -481,6 +482,52 @@ func runROConcurrent(cfg *RunCfg, rep *Reporter, cov *Cov) {
 		cov.Distinct("lock", fmt.Sprintf("ro-concurrent|%s|handles=%d", icfg, len(hs)))
 		os.RemoveAll(dir)
 	}
+}
+
+// runROOptionMix: "while it is open read-only only further read-only opens succeed" - whatever other
+// options the read-only opens carry (Check, Recover, both, AutoSync, eager migration): two read-only
+// handles with every pair of option sets share the directory, a writer is refused meanwhile.
+func runROOptionMix(cfg *RunCfg, rep *Reporter, cov *Cov) {
+	type optset struct {
+		name string
+		o    OpenOpts
+	}
+	sets := []optset{{"plain", OpenOpts{}}, {"check", OpenOpts{Check: true}}, {"recover", OpenOpts{Recover: true}}, {"check+recover", OpenOpts{Check: true, Recover: true}}, {"autosync", OpenOpts{AutoSync: true}}, {"eager", OpenOpts{Eager: true, NewVer: 2}}}
+	dir := filepath.Join(cfg.Scratch, "romix")
+	l0, err := kOpen(dir, OpenOpts{Rollover: 150, Create: true, KeyIndex: true})
+	if err != nil {
+		return
+	}
+	for i := 0; i < 6; i++ {
+		kPublish(l0, []klevdb.Message{{Key: []byte("k"), Value: []byte(fmt.Sprintf("value-%d", i))}})
+	}
+	kClose(l0)
+	for _, a := range sets {
+		for _, b := range sets {
+			oa, ob := a.o, b.o
+			oa.Readonly, oa.KeyIndex, oa.Rollover = true, true, 150
+			ob.Readonly, ob.KeyIndex, ob.Rollover = true, true, 150
+			cov.Add("evaluations", 1)
+			la, err := kOpen(dir, oa)
+			if err != nil {
+				rep.Report(Violation{Property: "C19", Sig: "lockmon|ro-option-mix:first-open:" + a.name + ":" + errClass(err), What: fmt.Sprintf("read-only Open(%s) of an unlocked directory failed: %s", a.name, errText(err)), Replay: map[string]any{"first": a.name}})
+				continue
+			}
+			lb, err := kOpen(dir, ob)
+			if err != nil {
+				rep.Report(Violation{Property: "C19", Sig: "lockmon|ro-option-mix:second-refused:" + a.name + "+" + b.name, What: fmt.Sprintf("while a read-only handle opened with (%s) holds the directory, a read-only Open with (%s) fails: %s", a.name, b.name, errText(err)), Replay: map[string]any{"first": a.name, "second": b.name}})
+			} else {
+				if lw, err := kOpen(dir, OpenOpts{Rollover: 150, KeyIndex: true}); err == nil {
+					kClose(lw)
+					rep.Report(Violation{Property: "C19", Sig: "lockmon|ro-option-mix:writer-admitted", What: fmt.Sprintf("a read-write Open succeeded while two read-only handles (%s, %s) were open", a.name, b.name), Replay: map[string]any{"first": a.name, "second": b.name}})
+				}
+				kClose(lb)
+			}
+			kClose(la)
+			cov.Distinct("lock", "ro-option-mix|"+a.name+"|"+b.name)
+		}
+	}
+	os.RemoveAll(dir)
 }
 
 // runCloseVsDelete: once Close of the writer has returned, the directory belongs to whoever opens it
